@@ -1,1 +1,613 @@
-"""placeholder"""
+"""Aggregation, persistence and validation tables: R-AGG, R-JSON-*, R-VAL-* (DESIGN §5.F)."""
+import ast
+
+from . import rule
+from ..frontend import AnalysisError, norm, is_property, is_abstract
+from ..report import Finding, RuleResult
+from ..interp import Cx
+
+SYS = "core/system.py"
+MO = "abstract_modeling_classes/modeling_object.py"
+MU = "abstract_modeling_classes/modeling_update.py"
+J2S = "api_utils/json_to_system.py"
+EO = "abstract_modeling_classes/explainable_objects.py"
+EB = "abstract_modeling_classes/explainable_object_base_class.py"
+
+CATEGORY_DICTS = ["fabrication_footprints", "energy_footprints", "total_fabrication_footprints", "total_energy_footprints"]
+FOOTPRINT_ATTR = {"fabrication_footprints": "instances_fabrication_footprint", "energy_footprints": "energy_footprint",
+                  "total_fabrication_footprints": "instances_fabrication_footprint",
+                  "total_energy_footprints": "energy_footprint"}
+
+
+def _dict_literal(fn):
+    for n in ast.walk(fn):
+        if isinstance(n, ast.Dict) and n.keys and all(isinstance(k, ast.Constant) and isinstance(k.value, str) for k in n.keys):
+            if len(n.keys) >= 3:
+                return n
+    return None
+
+
+def _entry(expr):
+    """category value expression -> (collection text, attribute, dedup: 'by-id' | 'none' | 'n/a')"""
+    if isinstance(expr, ast.DictComp):
+        g = expr.generators[0]
+        attr = expr.value.attr if isinstance(expr.value, ast.Attribute) else None
+        keyed = norm(expr.key).endswith(".id")
+        return norm(g.iter), attr, "by-id" if keyed else "none"
+    for n in ast.walk(expr):
+        if isinstance(n, ast.Call) and isinstance(n.func, ast.Name) and n.func.id == "sum" and n.args:
+            a = n.args[0]
+            if isinstance(a, (ast.ListComp, ast.GeneratorExp)):
+                g = a.generators[0]
+                attr = a.elt.attr if isinstance(a.elt, ast.Attribute) else None
+                it = g.iter
+                dedup = "none"
+                if isinstance(it, ast.Call) and isinstance(it.func, ast.Name) and it.func.id == "set":
+                    dedup = "set"
+                    it = it.args[0]
+                return norm(it), attr, dedup
+    return None, None, "n/a"
+
+
+def _set_derived(E, prop):
+    """is the System collection property built through a set (so each object occurs once)?"""
+    pm = E.pm
+    owner, fn = pm.find_method("System", prop)
+    if fn is None:
+        return None      # not a property: a raw link
+    seen = set()
+
+    def check(f):
+        if f.name in seen:
+            return False
+        seen.add(f.name)
+        t = norm(f)
+        if "set(" in t and ("list(" in t or "output_set" in t):
+            return True
+        for n in ast.walk(f):
+            if isinstance(n, ast.Call) and isinstance(n.func, ast.Attribute) and isinstance(n.func.value, ast.Name) \
+                    and n.func.value.id == "self":
+                o, g = pm.find_method("System", n.func.attr)
+                if g is not None and check(g):
+                    return True
+        return False
+    return check(fn)
+
+
+@rule("R-AGG")
+def r_agg(E):
+    pm = E.pm
+    res = RuleResult("R-AGG", "the four category dictionaries of System agree: same category keys (KEYS), same "
+                              "collection / attribute / deduplication per category (SIB), every collection holds each "
+                              "object once (ONCE), every footprint-bearing public class is covered (COVER)")
+    rel, _ = pm.module_tree(SYS)
+    views = {}
+    for d in CATEGORY_DICTS:
+        owner, fn = pm.find_method("System", d)
+        if fn is None:
+            raise AnalysisError(f"System.{d} vanished")
+        lit = _dict_literal(fn)
+        if lit is None:
+            res.undecided.append(f"System.{d}: no literal category dict")
+            continue
+        views[d] = ({k.value: _entry(v) for k, v in zip(lit.keys, lit.values)}, fn)
+    # KEYS
+    keysets = {d: set(v[0]) for d, v in views.items()}
+    ref = keysets.get("fabrication_footprints", set())
+    for d, ks in keysets.items():
+        res.instances += 1
+        if ks != ref:
+            res.findings.append(Finding(
+                "R-AGG", f"KEYS System.{d}",
+                f"System.{d} has categories {sorted(ks)} but fabrication_footprints has {sorted(ref)}: "
+                f"update_total_footprint indexes the energy dict with the fabrication dict's keys, so a category "
+                f"present on one side only is silently left out of (or breaks) the total", rel, views[d][1].lineno,
+                f"System.{d}"))
+    # update_total_footprint iterates one dict's keys over both
+    owner, utf = pm.find_method("System", "update_total_footprint")
+    res.instances += 1
+    t = norm(utf)
+    if "self.fabrication_footprints[key]" not in t or "self.energy_footprints[key]" not in t:
+        res.findings.append(Finding("R-AGG", "KEYS System.update_total_footprint",
+                                    "update_total_footprint no longer sums both the fabrication and the energy entry of "
+                                    "each category", rel, utf.lineno, "System.update_total_footprint"))
+    # SIB / ONCE per category
+    cats = sorted(ref)
+    for cat in cats:
+        rows = {d: views[d][0].get(cat) for d in views}
+        colls = {}
+        for d, row in rows.items():
+            if row is None or row[0] is None:
+                continue
+            res.instances += 1
+            coll, attr, dedup = row
+            if attr != FOOTPRINT_ATTR[d]:
+                res.findings.append(Finding(
+                    "R-AGG", f"SIB {cat} System.{d} attribute",
+                    f"System.{d}['{cat}'] reads .{attr}; the {d.replace('total_', '')} view of every category reads "
+                    f".{FOOTPRINT_ATTR[d]}", rel, views[d][1].lineno, f"System.{d}"))
+            prop = coll[5:] if coll.startswith("self.") else coll
+            sd = _set_derived(E, prop)
+            once = dedup in ("by-id", "set") or bool(sd)
+            colls[d] = (coll, once, dedup, sd)
+        if len({c[0] for c in colls.values()}) > 1:
+            res.findings.append(Finding(
+                "R-AGG", f"SIB {cat} collections",
+                f"category '{cat}' is summed over different collections in different views: "
+                f"{ {d: c[0] for d, c in colls.items()} }", rel, 0, "System"))
+        onces = {d: c[1] for d, c in colls.items()}
+        if colls and len(set(onces.values())) > 1:
+            dup = sorted(d for d, o in onces.items() if not o)
+            ok = sorted(d for d, o in onces.items() if o)
+            res.findings.append(Finding(
+                "R-AGG", f"SIB/ONCE {cat}",
+                f"category '{cat}': {ok} count each object once (keyed by id) but {dup} sum the raw list "
+                f"{colls[dup[0]][0]}, which accepts duplicates: after `system.usage_patterns.append(up)` for an "
+                f"already listed pattern the hourly total and the per-category sums disagree", rel,
+                views[dup[0]][1].lineno, f"System.{dup[0]}"))
+        elif colls and not any(onces.values()):
+            res.findings.append(Finding(
+                "R-AGG", f"ONCE {cat}", f"category '{cat}' sums a collection that may hold an object twice in every view",
+                rel, 0, "System"))
+        if len(res.samples) < 4 and colls:
+            res.samples.append({"category": cat, "views": {d: {"collection": c[0], "once": c[1]} for d, c in colls.items()}})
+    # COVER
+    for d in ("energy_footprints", "fabrication_footprints"):
+        attr = FOOTPRINT_ATTR[d]
+        covered = set()
+        for cat, row in views.get(d, ({}, None))[0].items():
+            if row[0] is None:
+                continue
+            prop = row[0][5:] if row[0].startswith("self.") else None
+            if prop is None:
+                continue
+            owner, f = pm.find_method("System", prop)
+            if f is not None:
+                out, cx = E.I.run_method("System", prop, Cx("System", prop))
+                res.undecided += [f"System.{prop}: {u}" for u in cx.unknown]
+                if out.elem is not None:
+                    covered |= set(out.elem.cls)
+            else:
+                covered |= set(pm.link_targets("System", prop))
+        for c in pm.ALL:
+            if attr in pm.calc(c):
+                res.instances += 1
+                if c not in covered:
+                    if d == "fabrication_footprints" and c == "Network":
+                        continue
+                    res.findings.append(Finding(
+                        "R-AGG", f"COVER {c}.{attr}",
+                        f"{c} computes {attr} but no category of System.{d} iterates a collection that can contain a {c}: "
+                        f"its footprint is missing from the system total", rel, views[d][1].lineno, f"System.{d}"))
+    res.breakdown = {"categories": cats}
+    res.floor = 20
+    return res
+
+
+# ---------------------------------------------------------------------------------------------- JSON
+def _writer_paths(fn):
+    """paths through a to_json writer: list of dict(keys, none_keys, conds)"""
+    paths = [dict(keys=set(), none=set(), conds=[])]
+
+    def run(stmts, paths):
+        for s in stmts:
+            if isinstance(s, ast.Assign) and isinstance(s.value, ast.Dict) and isinstance(s.targets[0], ast.Name):
+                for p in paths:
+                    for k, v in zip(s.value.keys, s.value.values):
+                        if isinstance(k, ast.Constant):
+                            p["keys"].add(k.value)
+                            if isinstance(v, ast.Constant) and v.value is None:
+                                p["none"].add(k.value)
+            elif isinstance(s, ast.Assign) and isinstance(s.targets[0], ast.Subscript) \
+                    and isinstance(s.targets[0].slice, ast.Constant):
+                for p in paths:
+                    p["keys"].add(s.targets[0].slice.value)
+            elif isinstance(s, ast.If):
+                a = [dict(keys=set(p["keys"]), none=set(p["none"]), conds=p["conds"] + [norm(s.test)[:50]]) for p in paths]
+                b = [dict(keys=set(p["keys"]), none=set(p["none"]), conds=p["conds"] + ["not " + norm(s.test)[:46]])
+                     for p in paths]
+                a = run(s.body, a)
+                b = run(s.orelse, b)
+                paths = a + b
+        return paths
+    return run(fn.body, paths)
+
+
+def _reader_chain(fn):
+    """the if/elif chain of json_to_explainable_object: list of (test, body)"""
+    for s in fn.body:
+        if isinstance(s, ast.If) and len(s.orelse) == 1 and isinstance(s.orelse[0], ast.If):
+            chain = []
+            node = s
+            while True:
+                chain.append((node.test, node.body))
+                if len(node.orelse) == 1 and isinstance(node.orelse[0], ast.If):
+                    node = node.orelse[0]
+                else:
+                    if node.orelse:
+                        chain.append((None, node.orelse))
+                    break
+            return chain
+    return None
+
+
+def _eval_reader_test(t, p):
+    if t is None:
+        return True
+    if isinstance(t, ast.BoolOp) and isinstance(t.op, ast.And):
+        return all(_eval_reader_test(v, p) for v in t.values)
+    if isinstance(t, ast.BoolOp) and isinstance(t.op, ast.Or):
+        return any(_eval_reader_test(v, p) for v in t.values)
+    if isinstance(t, ast.Compare) and len(t.ops) == 1:
+        if isinstance(t.ops[0], ast.In) and isinstance(t.left, ast.Constant):
+            return t.left.value in p["keys"]
+        if isinstance(t.ops[0], ast.Is) and isinstance(t.left, ast.Subscript) and isinstance(t.left.slice, ast.Constant):
+            k = t.left.slice.value
+            if k not in p["keys"]:
+                return "KeyError:" + k
+            return k in p["none"]
+    raise AnalysisError(f"json reader test not understood: {norm(t)[:80]}")
+
+
+EXPECTED_READER_CTOR = {"ExplainableObject": "SourceObject", "EmptyExplainableObject": "EmptyExplainableObject",
+                        "ExplainableQuantity": "ExplainableQuantity",
+                        "ExplainableHourlyQuantities": "ExplainableHourlyQuantities"}
+
+
+@rule("R-JSON-KEYS")
+def r_json_keys(E):
+    pm = E.pm
+    res = RuleResult("R-JSON-KEYS", "for every path through a to_json writer of an explainable value, the reader's "
+                                    "if/elif chain selects a branch and that branch only subscripts keys the writer emitted")
+    rel, reader = pm.find_function(J2S, "json_to_explainable_object")
+    chain = _reader_chain(reader)
+    if chain is None:
+        raise AnalysisError("json_to_explainable_object: if/elif chain not found")
+    writers = [("ExplainableObject", EB), ("EmptyExplainableObject", EO), ("ExplainableQuantity", EO),
+               ("ExplainableHourlyQuantities", EO)]
+    for cls, suffix in writers:
+        wrel, w = pm.find_function(suffix, f"{cls}.to_json")
+        for p in _writer_paths(w):
+            res.instances += 1
+            selected = None
+            problem = None
+            for test, body in chain:
+                r = _eval_reader_test(test, p)
+                if isinstance(r, str):
+                    problem = f"the reader's test `{norm(test)[:60]}` subscripts ['{r.split(':')[1]}'], which this path did not emit"
+                    break
+                if r:
+                    selected = (test, body)
+                    break
+            where = f"{cls}.to_json [{' & '.join(p['conds']) or 'always'}]"
+            if problem is None and selected is None:
+                problem = "no branch of json_to_explainable_object matches: the value is loaded as None"
+            if problem is None:
+                used = set()
+                for st in selected[1]:
+                    for n in ast.walk(st):
+                        if isinstance(n, ast.Subscript) and isinstance(n.value, ast.Name) and n.value.id == "input_dict" \
+                                and isinstance(n.slice, ast.Constant):
+                            used.add(n.slice.value)
+                miss = used - p["keys"]
+                built = {norm(c.func) for st in selected[1] for c in ast.walk(st) if isinstance(c, ast.Call)
+                         and norm(c.func) in EXPECTED_READER_CTOR.values()}
+                if EXPECTED_READER_CTOR[cls] not in built:
+                    problem = f"the selected reader branch builds {sorted(built)} instead of a " \
+                              f"{EXPECTED_READER_CTOR[cls]}: the value comes back as another kind of object"
+                elif miss:
+                    problem = f"the selected reader branch (`{norm(selected[0])[:50] if selected[0] is not None else 'else'}`) " \
+                              f"subscripts {sorted(miss)}, which this writer path does not emit: KeyError on load"
+            if problem:
+                key = f"{cls}.to_json [{' & '.join(c for c in p['conds'] if 'source' not in c and 'calculated' not in c) or 'always'}]"
+                if not any(f.key == key for f in res.findings):
+                    res.findings.append(Finding("R-JSON-KEYS", key, f"{where}: emits {sorted(p['keys'])}; {problem}",
+                                                rel, reader.lineno, "json_to_explainable_object"))
+            elif len(res.samples) < 5:
+                res.samples.append({"writer_path": where, "emits": sorted(p["keys"]),
+                                    "reader_branch": norm(selected[0])[:60] if selected[0] is not None else "else",
+                                    "verdict": "branch reads only emitted keys"})
+    res.floor = 20
+    return res
+
+
+@rule("R-JSON-KINDS")
+def r_json_kinds(E):
+    pm = E.pm
+    res = RuleResult("R-JSON-KINDS", "every attribute a public class's constructor assigns is either excluded from "
+                                     "export or of a kind ModelingObject.to_json has a branch for; excluded constructor "
+                                     "parameters are in the writer's explicit whitelist")
+    rel, tj = pm.find_function(MO, "ModelingObject.to_json")
+    whitelist = set()
+    for n in ast.walk(tj):
+        if isinstance(n, ast.Compare) and isinstance(n.ops[0], ast.In) and isinstance(n.comparators[0], ast.List) \
+                and norm(n.left) == "key":
+            whitelist |= {e.value for e in n.comparators[0].elts if isinstance(e, ast.Constant)}
+    branches = norm(tj)
+    has = {"none_or_str": "value is None or isinstance(value, str)" in branches,
+           "model": "isinstance(value, ModelingObject)" in branches,
+           "to_json": "getattr(value, 'to_json', None) is not None" in branches}
+    if not all(has.values()):
+        res.findings.append(Finding("R-JSON-KINDS", "ModelingObject.to_json branches",
+                                    f"ModelingObject.to_json lost a dispatch branch: {has}", rel, tj.lineno,
+                                    "ModelingObject.to_json"))
+    for c in pm.ALL:
+        excl = set(pm.no_update_attrs(c))
+        params = set(pm.ctor_params(c))
+        for a, ai in sorted(pm.init_attrs(c).items()):
+            res.instances += 1
+            if a in excl:
+                if a in params and a not in whitelist and a != "name":
+                    res.findings.append(Finding(
+                        "R-JSON-KINDS", f"{c}.{a} excluded parameter not exported",
+                        f"{c}.{a} is a constructor parameter excluded from the update logic but not in to_json's explicit "
+                        f"list {sorted(whitelist)}: it is lost on save", pm.path_of(ai.owner), ai.node.lineno, f"{ai.owner}.__init__"))
+                continue
+            if ai.kind in ("input", "placeholder", "link"):
+                continue
+            v = ai.node.value
+            if isinstance(v, ast.Constant) and (v.value is None or isinstance(v.value, str)):
+                continue
+            if isinstance(v, ast.JoinedStr):
+                continue
+            if ai.param is not None and ai.kind == "plain":
+                pa = pm.ann(pm.ctor_params(c).get(ai.param)) if ai.param in pm.ctor_params(c) else None
+                if pa and pa[1] & {"str"}:
+                    continue
+            res.findings.append(Finding(
+                "R-JSON-KINDS", f"{c}.{a} unhandled kind",
+                f"{c}.__init__ assigns self.{a} = {norm(v)[:50]}, which is neither excluded by "
+                f"attributes_that_shouldnt_trigger_update_logic nor of a kind to_json handles: exporting a {c} raises",
+                pm.path_of(ai.owner), ai.node.lineno, f"{ai.owner}.__init__"))
+    res.samples = [{"to_json_whitelist": sorted(whitelist), "branches": has}]
+    res.floor = 200
+    return res
+
+
+@rule("R-JSON-UPG")
+def r_json_upg(E):
+    pm = E.pm
+    res = RuleResult("R-JSON-UPG", "VERSION_UPGRADE_HANDLERS has a handler for every major version from 9 to the current "
+                                   "major - 1, and the loader applies them in order")
+    import os
+    import re
+    vpath = os.path.join(pm.root, "version.py")
+    src = open(vpath).read() if os.path.exists(vpath) else ""
+    m = re.search(r"__version__\s*=\s*[\"'](\d+)\.", src)
+    if not m:
+        raise AnalysisError("efootprint/version.py: __version__ not found")
+    major = int(m.group(1))
+    rel, tree = pm.module_tree("api_utils/version_upgrade_handlers.py")
+    table = None
+    for n in tree.body:
+        if isinstance(n, ast.Assign) and norm(n.targets[0]) == "VERSION_UPGRADE_HANDLERS" and isinstance(n.value, ast.Dict):
+            table = n
+    if table is None:
+        raise AnalysisError("VERSION_UPGRADE_HANDLERS vanished")
+    keys = {k.value for k in table.value.keys if isinstance(k, ast.Constant)}
+    funcs = {f.name for f in tree.body if isinstance(f, ast.FunctionDef)}
+    for v in range(9, major):
+        res.instances += 1
+        if v not in keys:
+            res.findings.append(Finding("R-JSON-UPG", f"handler for {v}",
+                                        f"current major is {major} but no upgrade handler is registered for version {v}: "
+                                        f"files written by version {v} raise KeyError on load", rel, table.lineno,
+                                        "VERSION_UPGRADE_HANDLERS"))
+    for k, v in zip(table.value.keys, table.value.values):
+        res.instances += 1
+        if not (isinstance(v, ast.Name) and v.id in funcs):
+            res.findings.append(Finding("R-JSON-UPG", f"handler value {norm(k)}", f"handler {norm(v)} is not a function "
+                                        f"of the module", rel, table.lineno, "VERSION_UPGRADE_HANDLERS"))
+    rel2, j = pm.find_function(J2S, "json_to_system")
+    res.instances += 1
+    t = norm(j)
+    if "range(json_major_version, efootprint_major_version)" not in t or "VERSION_UPGRADE_HANDLERS[version](system_dict)" not in t:
+        res.findings.append(Finding("R-JSON-UPG", "loader loop", "json_to_system no longer applies the handlers for every "
+                                    "version between the file's major and the current one", rel2, j.lineno, "json_to_system"))
+    # each handler returns the dict it upgraded
+    for f in tree.body:
+        if isinstance(f, ast.FunctionDef):
+            res.instances += 1
+            rets = [r for r in ast.walk(f) if isinstance(r, ast.Return)]
+            if not rets or any(r.value is None or norm(r.value) != f.args.args[0].arg for r in rets):
+                res.findings.append(Finding("R-JSON-UPG", f"{f.name} return", f"{f.name} does not return the upgraded "
+                                            f"dict on every path: the loader continues with None", rel, f.lineno, f.name))
+    res.samples = [{"current_major": major, "handlers_for": sorted(keys)}]
+    res.floor = 3
+    return res
+
+
+@rule("R-JSON-CLS")
+def r_json_cls(E):
+    pm = E.pm
+    res = RuleResult("R-JSON-CLS", "the loader's class table covers what the writer can emit: public classes have distinct "
+                                   "names, every link target has a public class, and the table is built from "
+                                   "ALL_EFOOTPRINT_CLASSES")
+    rel, _ = pm.module_tree("core/all_classes_in_order.py")
+    res.instances += 1
+    if len(set(pm.ALL)) != len(pm.ALL) or pm.dup_classes:
+        res.findings.append(Finding("R-JSON-CLS", "duplicate class names", f"duplicate class names: {pm.dup_classes}", rel))
+    for (c, a), (kind, tg) in sorted(pm.public_links().items()):
+        res.instances += 1
+        if not tg:
+            res.findings.append(Finding(
+                "R-JSON-CLS", f"{c}.{a} target not public",
+                f"link {c}.{a} has no public target class: an object saved through it has no entry in the loader's class "
+                f"table (KeyError on load)", pm.path_of(c)))
+    # every concrete model class that can be instantiated and linked is public
+    for cn in sorted(pm.classes):
+        if not pm.is_model(cn) or cn in pm.ALL:
+            continue
+        abstract = any(is_abstract(f) for f in pm.own_methods(cn)) or bool(pm.pub(cn)) or cn == "ModelingObject"
+        res.instances += 1
+        if not abstract:
+            res.findings.append(Finding(
+                "R-JSON-CLS", f"{cn} not public",
+                f"{cn} is a concrete model class that is not in ALL_EFOOTPRINT_CLASSES: a system using it cannot be "
+                f"loaded back", pm.path_of(cn), pm.classes[cn].node.lineno, cn))
+    rel2, j = pm.find_function(J2S, "json_to_system")
+    res.instances += 1
+    if "for modeling_object_class in ALL_EFOOTPRINT_CLASSES" not in norm(j):
+        res.findings.append(Finding("R-JSON-CLS", "class table source", "json_to_system no longer builds its class table "
+                                    "from ALL_EFOOTPRINT_CLASSES", rel2, j.lineno, "json_to_system"))
+    # the writer keys objects by class_as_simple_str == type(self).__name__
+    rel3, w = pm.find_function("api_utils/system_to_json.py", "recursively_write_json_dict")
+    res.instances += 1
+    if "class_as_simple_str" not in norm(w):
+        res.findings.append(Finding("R-JSON-CLS", "writer class key", "the writer no longer keys objects by class name",
+                                    rel3, w.lineno, w.name))
+    res.floor = 20
+    return res
+
+
+# ---------------------------------------------------------------------------------------------- validation
+def _annotation_form(a):
+    if a is None:
+        return "none"
+    if isinstance(a, ast.Subscript):
+        base = norm(a.value)
+        return "list" if base in ("List", "list") else f"generic:{base}"
+    if isinstance(a, ast.BinOp) and isinstance(a.op, ast.BitOr):
+        return "union"
+    if isinstance(a, (ast.Name, ast.Attribute, ast.Constant)):
+        return "class"
+    return "other"
+
+
+def _validator_forms(fn):
+    """which annotation forms does check_input_value_type_positivity_and_unit actually check?"""
+    handled = set()
+    top = None
+    for n in ast.walk(fn):
+        if isinstance(n, ast.If) and norm(n.test) == "get_origin(annotation)":
+            top = n
+    if top is None:
+        return None
+    inner = norm(ast.Module(body=top.body, type_ignores=[]))
+    if "(list, List)" in inner or "in (list," in inner:
+        handled.add("list")
+    if "Union" in inner or "UnionType" in inner or "get_args(annotation)" in inner.replace("get_args(annotation)[0]", ""):
+        handled.add("union")
+    # the elif chain after it handles plain classes
+    if top.orelse and "isinstance(input_value, annotation)" in norm(ast.Module(body=top.orelse, type_ignores=[])):
+        handled.add("class")
+    return handled
+
+
+@rule("R-VAL-FORMS")
+def r_val_forms(E):
+    pm = E.pm
+    res = RuleResult("R-VAL-FORMS", "the input validator dispatches on the form of the parameter annotation; every "
+                                    "annotation form used by a constructor parameter of a public class lands in a branch "
+                                    "that checks something")
+    rel, fn = pm.find_function(MO, "ModelingObject.check_input_value_type_positivity_and_unit")
+    handled = _validator_forms(fn)
+    if handled is None:
+        raise AnalysisError("check_input_value_type_positivity_and_unit: dispatch on get_origin(annotation) not found")
+    forms = {}
+    for c in pm.ALL:
+        for p, a in pm.ctor_params(c).items():
+            if p == "name":
+                continue
+            res.instances += 1
+            f = _annotation_form(a)
+            forms.setdefault(f, []).append(f"{c}.{p}")
+            if f not in handled and f != "none":
+                res.findings.append(Finding(
+                    "R-VAL-FORMS", f"{c}.{p} annotation form {f}",
+                    f"{c}.__init__ parameter {p}: {norm(a)} is a {f} annotation; get_origin() is truthy for it but the "
+                    f"validator only looks for list origins there, so the value is accepted unchecked — wrong type, "
+                    f"wrong dimension or negative", pm.path_of(pm.ctor(c)[0]), pm.ctor(c)[1].lineno, f"{c}.__init__"))
+    # the checks inside the class branch: type, dimension, sign
+    t = norm(fn)
+    for need, what in (("dimensionality != default_value.value.dimensionality", "dimension"),
+                       ("input_value.magnitude < 0", "sign"), ("isinstance(input_value, annotation)", "type"),
+                       ("isinstance(item, inner_type)", "list element type")):
+        res.instances += 1
+        if need not in t:
+            res.findings.append(Finding("R-VAL-FORMS", f"validator lost its {what} check",
+                                        f"check_input_value_type_positivity_and_unit no longer checks the {what}", rel,
+                                        fn.lineno, fn.name))
+    raises = [n for n in ast.walk(fn) if isinstance(n, ast.Raise)]
+    res.instances += 1
+    if len(raises) < 4:
+        res.findings.append(Finding("R-VAL-FORMS", "validator raises", f"the validator has {len(raises)} raise statements "
+                                    f"(4 expected: list element, type, dimension, sign)", rel, fn.lineno, fn.name))
+    res.breakdown = {"forms_handled": sorted(handled), "forms_used": {k: len(v) for k, v in forms.items()}}
+    res.samples = [{"form": k, "examples": v[:3]} for k, v in forms.items()]
+    res.floor = 100
+    return res
+
+
+@rule("R-VAL-SIB")
+def r_val_sib(E):
+    pm = E.pm
+    res = RuleResult("R-VAL-SIB", "both entry paths (construction through __setattr__; later edits through ModelingUpdate) "
+                                  "call both validators")
+    rel, sa = pm.find_function(MO, "ModelingObject.__setattr__")
+    rel2, pc = pm.find_function(MU, "ModelingUpdate.parse_changes_list")
+    rel2, init = pm.find_function(MU, "ModelingUpdate.__init__")
+    checks = [("construction", sa, rel, "check_input_value_type_positivity_and_unit"),
+              ("construction", sa, rel, "check_belonging_to_authorized_values"),
+              ("update", pc, rel2, "check_input_value_type_positivity_and_unit"),
+              ("update", init, rel2, "check_belonging_to_authorized_values")]
+    for path, fn, r, v in checks:
+        res.instances += 1
+        calls = [c for c in ast.walk(fn) if isinstance(c, ast.Call) and isinstance(c.func, ast.Attribute) and c.func.attr == v]
+        if not calls:
+            res.findings.append(Finding("R-VAL-SIB", f"{path} path lacks {v}",
+                                        f"the {path} path ({fn.name}) no longer calls {v}: values refused on one path are "
+                                        f"accepted on the other", r, fn.lineno, fn.name))
+            continue
+        c = calls[0]
+        # the validator receives the attribute name and the new value
+        args = [norm(a) for a in c.args]
+        if path == "construction" and args[:2] != ["name", "input_value"]:
+            res.findings.append(Finding("R-VAL-SIB", f"{path} {v} arguments", f"{fn.name} calls {v}({', '.join(args[:2])})",
+                                        r, c.lineno, fn.name))
+        if path == "update" and v.startswith("check_input") and args[:2] != ["old_value.attr_name_in_mod_obj_container", "new_value"]:
+            res.findings.append(Finding("R-VAL-SIB", f"{path} {v} arguments", f"{fn.name} calls {v}({', '.join(args[:2])})",
+                                        r, c.lineno, fn.name))
+        # construction: guarded only by check_input_validity and not for calculated attributes
+        if len(res.samples) < 4:
+            res.samples.append({"path": path, "function": fn.name, "validator": v, "call": norm(c)[:90]})
+    # in parse_changes_list the type check must not be skipped for any non-None value
+    res.instances += 1
+    iff = next((s for s in ast.walk(pc) if isinstance(s, ast.If) and norm(s.test) == "new_value is None"), None)
+    if iff is None or not any("check_input_value_type_positivity_and_unit" in norm(x) for x in iff.orelse):
+        res.findings.append(Finding("R-VAL-SIB", "update path check guard",
+                                    "parse_changes_list must validate every new value that is not None", rel2, pc.lineno,
+                                    pc.name))
+    res.floor = 5
+    return res
+
+
+@rule("R-VAL-DEF")
+def r_val_def(E):
+    pm = E.pm
+    res = RuleResult("R-VAL-DEF", "every ExplainableQuantity-annotated constructor parameter of a public class has a key in "
+                                  "the class's default_values() (the dimension check reads default_values[name])")
+    for c in pm.ALL:
+        owner, fn = pm.find_method(c, "default_values")
+        keys = None
+        if fn is not None:
+            d = next((n for n in ast.walk(fn) if isinstance(n, ast.Return) and isinstance(n.value, ast.Dict)), None)
+            if d is not None:
+                keys = {k.value for k in d.value.keys if isinstance(k, ast.Constant)}
+        for p, a in pm.ctor_params(c).items():
+            if not (isinstance(a, ast.Name) and a.id == "ExplainableQuantity"):
+                continue
+            res.instances += 1
+            if keys is None:
+                res.undecided.append(f"{c}.default_values: not a literal dict")
+                continue
+            if p not in keys:
+                res.findings.append(Finding(
+                    "R-VAL-DEF", f"{c}.{p} has no default",
+                    f"{c}.__init__({p}: ExplainableQuantity) but {owner}.default_values() has no '{p}' key: validating "
+                    f"any value for it raises KeyError instead of checking its dimension", pm.path_of(owner),
+                    fn.lineno, f"{owner}.default_values"))
+            elif len(res.samples) < 3:
+                res.samples.append({"parameter": f"{c}.{p}", "default_key": True})
+    res.floor = 55
+    return res
